@@ -261,6 +261,61 @@ pub fn run_enc_check(ctx: &Ctx, check: &EncCheck) -> Stats {
     if fw::should_stop() {
         return total;
     }
+    // ---- numeric-character-reference family: the scalars on either side of every change in the
+    // number of decimal digits (10^k - 1, 10^k, 10^k + 1) and of every UTF-8 / UTF-16 length class,
+    // alone, between ASCII and doubled, so each digit-count rung of the reference writer is taken
+    // by its first and last value in every encoder, source form and sink
+    let st = par_run(ctx, n_enc, |part, st| {
+        let enc = check.encs[part];
+        let algo = enc_algo_for(enc);
+        let mut sc = EScratch::new();
+        let mut bounds: Vec<u32> = vec![0x80, 0x7FF, 0x800, 0xD7FF, 0xE000, 0xFFFF, 0x10000, 0x10FFFE, 0x10FFFF];
+        let mut p = 100u32;
+        while p <= 1_000_000 {
+            bounds.extend_from_slice(&[p - 1, p, p + 1]);
+            p *= 10;
+        }
+        for &x in &bounds {
+            if fw::should_stop() {
+                return;
+            }
+            for text in [vec![x], vec![0x61, x, 0x62], vec![x, x], vec![0x3042, x, 0x3042]] {
+                for &src in &check.srcs {
+                    for &repl in &check.repls {
+                        if repl && check.mappable_only_when_repl && text.iter().any(|c| !model_enc::mappable(algo, *c)) {
+                            continue;
+                        }
+                        let m = if repl { 14 } else { 4 };
+                        for caps in [vec![], vec![m], vec![m + 1, 64], vec![24]] {
+                            for &sink in &check.sinks {
+                                if sink == ESink::Vec && src == Src::Utf16 {
+                                    continue;
+                                }
+                                let mut h = EncHistory::simple(enc, src, repl, &text);
+                                h.sink = sink;
+                                h.caps = caps.clone();
+                                st.evals += 1;
+                                st.class("decimal-digit-count-boundary-scalar");
+                                if let Some((msg, sig)) = (check.verdict)(&h, &mut sc, st, true) {
+                                    if let Some(id) = fw::known_open_id(&sig) {
+                                        st.known_hit(id);
+                                    } else {
+                                        st.violations.push(violation_for(&h, check, msg, sig));
+                                        return;
+                                    }
+                                }
+                            }
+                        }
+                    }
+                }
+            }
+        }
+    });
+    total.merge(st);
+    total.exhaustive.push("numeric-character-reference family: 10^k-1, 10^k, 10^k+1 (k = 2..=6) and the UTF-8/UTF-16 length-class boundary scalars x {alone, between ASCII, doubled, between kana} x sources x sinks x modes x 4 capacity patterns".into());
+    if fw::should_stop() {
+        return total;
+    }
     // ---- uniform-run family: 15..=33 copies of one character (a whole stride of non-ASCII units)
     // with output capacities below and around a stride
     let st = par_run(ctx, n_enc * 4, |part, st| {
